@@ -359,6 +359,17 @@ func exprPoly(info *types.Info, e ast.Expr, defs map[types.Object]localDef, stop
 		if d, ok := defs[info.Uses[id]]; ok && d.pos == 0 && !stop[id.Name] {
 			return exprPoly(info, d.rhs, defs, stop, depth+1)
 		}
+		if defs != nil && polyReach != nil && !stop[id.Name] {
+			if d, ok := polyReach.at(info.Uses[id], id); ok && d.pos == 0 {
+				return exprPoly(info, d.rhs, defs, stop, depth+1)
+			}
+		}
+		// a parameter standing for the argument of the call being read
+		if a, ok := polyArgs[info.Uses[id]]; ok && depth < 40 {
+			if pp, ok := exprPoly(info, a, defs, stop, depth+8); ok {
+				return pp, true
+			}
+		}
 	}
 	if polyAbstract {
 		switch x := e.(type) {
@@ -429,6 +440,49 @@ func exprPoly(info *types.Info, e ast.Expr, defs map[types.Object]localDef, stop
 				}
 				sort.Strings(args)
 				return polyAtom(id.Name + "(" + strings.Join(args, ";") + ")"), true
+			}
+		}
+		// a call of a function of the same package that does nothing but return an expression is read as that
+		// expression (resolved forms only): moving a formula into such a helper, or back, changes nothing
+		if defs != nil && polyInline != nil && depth < 30 {
+			if f := calleeFunc(info, x); f != nil {
+				if hd, ok := polyInline[f]; ok && hd.info == info && len(polyInlining) < 4 && !polyInlining[f] {
+					ret := hd.fd.Body.List[0].(*ast.ReturnStmt).Results[0]
+					saved := polyArgs
+					merged := map[types.Object]ast.Expr{}
+					for k, v := range saved {
+						merged[k] = v
+					}
+					i := 0
+					okArgs := true
+					for _, fl := range hd.fd.Type.Params.List {
+						for _, nm := range fl.Names {
+							if i < len(x.Args) && substitutable(x.Args[i]) {
+								merged[info.Defs[nm]] = x.Args[i]
+							} else {
+								okArgs = false
+							}
+							i++
+						}
+					}
+					if hd.fd.Recv != nil && len(hd.fd.Recv.List) == 1 && len(hd.fd.Recv.List[0].Names) == 1 {
+						if sel, ok := ast.Unparen(x.Fun).(*ast.SelectorExpr); ok && substitutable(sel.X) {
+							merged[info.Defs[hd.fd.Recv.List[0].Names[0]]] = sel.X
+						} else {
+							okArgs = false
+						}
+					}
+					if okArgs && i == len(x.Args) {
+						polyArgs = merged
+						polyInlining[f] = true
+						p, ok := exprPoly(info, ret, defs, stop, depth+6)
+						delete(polyInlining, f)
+						polyArgs = saved
+						if ok {
+							return p, true
+						}
+					}
+				}
 			}
 		}
 		fnName := ""
@@ -776,4 +830,38 @@ func polyBitOp(op token.Token, a, b Poly) Poly {
 		sa, sb = sb, sa
 	}
 	return polyAtom("(" + sa + op.String() + sb + ")")
+}
+
+// polyInline: the functions whose body is a single `return <expr>` (no variadics), by object; set by the collectors
+// that want calls of them read as the returned expression. polyInlining guards against recursion.
+type inlineDecl struct {
+	fd   *ast.FuncDecl
+	info *types.Info
+}
+
+var polyInline map[*types.Func]inlineDecl
+var polyInlining = map[*types.Func]bool{}
+
+func inlinableFuncs(p *Prog) map[*types.Func]inlineDecl {
+	out := map[*types.Func]inlineDecl{}
+	p.funcDecls(func(pk *packages.Package, fd *ast.FuncDecl) {
+		if fd.Body == nil || len(fd.Body.List) != 1 {
+			return
+		}
+		r, ok := fd.Body.List[0].(*ast.ReturnStmt)
+		if !ok || len(r.Results) != 1 {
+			return
+		}
+		f, ok := pk.TypesInfo.Defs[fd.Name].(*types.Func)
+		if !ok {
+			return
+		}
+		if sig, ok := f.Type().(*types.Signature); !ok || sig.Variadic() {
+			return
+		}
+		// the returned expression must be arithmetic over its parameters (not a call chain with effects): keep
+		// those exprPoly can read at all; decided at use
+		out[f] = inlineDecl{fd, pk.TypesInfo}
+	})
+	return out
 }
